@@ -108,22 +108,28 @@ Lemma verify_true_means_verified : forall s s',
   checksum_verify s = (s', Ok true) ->
   verified s /\ f_deliv (p_fin (d_p s')) = DATA_COMPLETE /\ f_cond (p_fin (d_p s')) = C_NO_ERROR /\
   fs_d s' = fs_d s /\ p_file_name (d_p s') = p_file_name (d_p s) /\ p_progress (d_p s') = p_progress (d_p s) /\
-  p_crc32 (d_p s') = p_crc32 (d_p s) /\ p_cktype (d_p s') = p_cktype (d_p s) /\ p_md_only (d_p s') = p_md_only (d_p s).
+  p_crc32 (d_p s') = p_crc32 (d_p s) /\ p_cktype (d_p s') = p_cktype (d_p s) /\ p_md_only (d_p s') = p_md_only (d_p s) /\
+  (* (F31 repair) with a real check, no data is known to be missing: the progress reaches the EOF's file size *)
+  (p_md_only (d_p s) = false -> p_cktype (d_p s) <> CK_NULL ->
+   match p_file_size_eof (d_p s) with None => True | Some n => n <= p_progress (d_p s) end).
 Proof.
   intros s s' H. unfold checksum_verify in H. mrun_in H.
   destruct ((p_cktype (d_p s) =? CK_NULL) || p_md_only (d_p s)) eqn:E.
   - mrun_in H. inversion H; subst s'. split.
     + apply orb_true_iff in E. destruct E as [E|E]; [right; left; apply Z.eqb_eq; exact E | left; exact E].
-    + cbn. repeat split; reflexivity.
+    + cbn. repeat split; try reflexivity. intros Hm Hn. exfalso.
+      apply orb_true_iff in E. destruct E as [E|E]; [apply Z.eqb_eq in E; contradiction | congruence].
   - apply orb_false_iff in E. destruct E as [E1 E2].
     unfold vfs_checksum in H. mrun_in H. rewrite E1 in H.
     destruct (lookup (e_fs (d_env s)) (p_file_name (d_p s))) as [[d|]|] eqn:Hl; mrun_in H; try discriminate H.
     destruct (calculate_checksum (p_cktype (d_p s)) (Some d) (p_progress (d_p s)) 4096) as [r|[]] eqn:Hc;
       mrun_in H; try discriminate H.
-    destruct (bytes_eqb r (p_crc32 (d_p s))) eqn:Hb; mrun_in H.
-    + inversion H; subst s'. split.
+    destruct (bytes_eqb r (p_crc32 (d_p s)) &&
+              match p_file_size_eof (d_p s) with None => true | Some n => n <=? p_progress (d_p s) end) eqn:Hb; mrun_in H.
+    + apply andb_true_iff in Hb. destruct Hb as [Hb Hsz]. inversion H; subst s'. split.
       * right. right. exists d. split; [exact Hl|]. cbv zeta. rewrite Hc. f_equal. apply bytes_eqb_eq. exact Hb.
-      * cbn. repeat split; reflexivity.
+      * cbn. repeat split; try reflexivity. intros _ _.
+        destruct (p_file_size_eof (d_p s)) as [n|]; [apply Z.leb_le; exact Hsz | exact I].
     + exfalso. unfold bind in H. destruct (declare_fault C_CHECKSUM_FAILURE s) as [s1 [fh|e]]; discriminate H.
 Qed.
 
@@ -136,14 +142,18 @@ Proof.
   - mrun_in H. discriminate H.
   - unfold vfs_checksum in H. mrun_in H.
     destruct (p_cktype (d_p s) =? CK_NULL); mrun_in H.
-    + destruct (bytes_eqb [0; 0; 0; 0] (p_crc32 (d_p s))); mrun_in H; [discriminate H|].
+    + destruct (bytes_eqb [0; 0; 0; 0] (p_crc32 (d_p s)) &&
+                match p_file_size_eof (d_p s) with None => true | Some n => n <=? p_progress (d_p s) end);
+        mrun_in H; [discriminate H|].
       pose proof (presR_declare_fault C_CHECKSUM_FAILURE s) as X.
       unfold bind in H. destruct (declare_fault C_CHECKSUM_FAILURE s) as [s1 [fh|e]]; [|discriminate H].
       inversion H; subst s'. cbn [fst] in X. destruct X as [X|[_ X]]; [rewrite X in Hb; discriminate Hb | exact X].
     + destruct (lookup (e_fs (d_env s)) (p_file_name (d_p s))) as [[d|]|]; mrun_in H; try discriminate H.
       destruct (calculate_checksum (p_cktype (d_p s)) (Some d) (p_progress (d_p s)) 4096) as [r|[]];
         mrun_in H; try discriminate H.
-      destruct (bytes_eqb r (p_crc32 (d_p s))); mrun_in H; [discriminate H|].
+      destruct (bytes_eqb r (p_crc32 (d_p s)) &&
+                match p_file_size_eof (d_p s) with None => true | Some n => n <=? p_progress (d_p s) end);
+        mrun_in H; [discriminate H|].
       pose proof (presR_declare_fault C_CHECKSUM_FAILURE s) as X.
       unfold bind in H. destruct (declare_fault C_CHECKSUM_FAILURE s) as [s1 [fh|e]]; [|discriminate H].
       inversion H; subst s'. cbn [fst] in X. destruct X as [X|[_ X]]; [rewrite X in Hb; discriminate Hb | exact X].
